@@ -260,4 +260,53 @@ def invertPermuted (n : Nat) (A : Mat) (rp cp sizes : List Nat) : Option Mat :=
   | none => none
   | some r => some (unpermute n r.dense rp cp)
 
+/-! ## decidable input conditions of the pipeline theorems (evaluated by the driver on every case) -/
+
+/-- `l` is a permutation of `0 … n-1` -/
+def isPermOfRange (n : Nat) (l : List Nat) : Bool :=
+  l.length == n && (List.range n).all (fun i => l.contains i)
+
+/-- `B` is block diagonal with the given (positive) sizes: it equals the block-diagonal assembly
+    of its own diagonal blocks -/
+def isBlockDiag (n : Nat) (B : Mat) (sz : List Nat) : Bool :=
+  decide (B = denseBlockDiag n 0 (extractBlocks B 0 sz))
+
+/-- hypotheses of `invertDiagonalBlocks_correct` -/
+def blockHyp (n : Nat) (A : Mat) (sizes : List Nat) : Bool :=
+  isSquare n A && decide ((sizes.filter (· > 0)).sum = n) && isBlockDiag n A (sizes.filter (· > 0))
+
+/-- hypotheses of `invertPermuted_correct` -/
+def pipelineHyp (n : Nat) (A : Mat) (rp cp sizes : List Nat) : Bool :=
+  isPermOfRange n rp && isPermOfRange n cp && decide ((sizes.filter (· > 0)).sum = n) &&
+    isBlockDiag n (permute A rp cp) (sizes.filter (· > 0))
+
+/-! ## neighbouring entry points -/
+
+inductive InvError where
+  | singular       -- LinAlgError (python) / ValueError (numba)
+  | unknownMethod  -- ValueError("Unknown type of block inverter")
+  | badFormat      -- TypeError("Sparse array type not implemented")
+deriving DecidableEq, Repr
+
+/-- `invert_diagonal_blocks(mat, s, method)` with its option handling (numba available): the
+    method is selected first (`None` = numba), the storage format is checked inside the selected
+    inverter; both inverters compute the same function. -/
+def invertDiagonalBlocksOpt (fmtOk : Bool) (method : Option String) (A : Mat) (s : List Nat) :
+    Except InvError BlockInverse :=
+  if method == none || method == some "numba" || method == some "python" then
+    if !fmtOk then .error .badFormat
+    else match invertDiagonalBlocks A s with
+      | none => .error .singular
+      | some r => .ok r
+  else .error .unknownMethod
+
+/-- `block_diag_index(m, n)` (two-argument branch): row and column indices of the block-diagonal
+    pattern with full `m_k × n_k` blocks, column by column -/
+def blockDiagIndexRect : Nat → Nat → List Nat → List Nat → List Nat × List Nat
+  | ro, co, m :: ms, n :: ns =>
+    let rest := blockDiagIndexRect (ro + m) (co + n) ms ns
+    ((List.replicate n (List.range' ro m)).flatten ++ rest.1,
+     (List.range' co n).flatMap (fun c => List.replicate m c) ++ rest.2)
+  | _, _, _, _ => ([], [])
+
 end PorepyVerif.C37
